@@ -26,14 +26,14 @@ RULE = ("Resolution (systematic): for every built-in class x decade 1970..2099 x
         "date strictly later than now, shifted by the offset), never be past its last trading date, and the resolved index must never "
         "decrease as time advances. Rolling (random): environments trading one chain (ES, NK, VX, ZN; offset 0/1) over ~400 days with "
         "grid steps shorter than the roll window, random targets of either sign and zeros, spread, threshold, fees, optional second "
-        "spot asset. After every step every chain contract other than the lead at decision time is flat; nothing is held at or after "
+        "spot asset; every fifth episode is an intraday grid straddling a roll instant with a latency window containing it (decision before, execution after the last-trading instant). After every step every chain contract other than the lead at decision time is flat; nothing is held at or after "
         "its expiry; at a roll the old lead's trade is exactly -held and the new lead trades at its own logged quotes. Non-trivial = "
         "resolution case containing roll instants, or an episode with at least one roll while holding a position.")
 ASSUMPTIONS = ["grid gaps shorter than the roll window (expiry - last trading date), as the property requires",
                "chain spans cover the process clock (K3 is reported under C10 only)"]
 REQUIRED = ["C11:lead-resolution", "C11:never-past-last-trading", "C11:monotone", "C11:others-flat", "C11:not-held-at-expiry",
             "C11:roll-closes-old-lead", "C11:new-lead-at-own-quotes"]
-REQUIRED_CATS = ["rolling:ES", "rolling:NK", "rolling:VX", "rolling:ZN", "rolled-while-holding"]
+REQUIRED_CATS = ["roll-inside-latency-window", "rolling:ES", "rolling:NK", "rolling:VX", "rolling:ZN", "rolled-while-holding"]
 REQUIRED_HITS = ["Broker.transact", "Broker.rebalance"]
 TECHNIQUE = "runtime monitoring: complete enumeration of roll instants against a linear-scan reference; holdings invariants after every step of rolling episodes"
 LEVEL_TEXT = ("Roll instants of every built-in class are enumerated completely per decade (exact instant and +-1us) against an "
@@ -106,18 +106,36 @@ def case(ctx, i, tier):
     stepd = rng.choice([d for d in (1, 3, 5, 7, 10) if d < minwin] or [1])
     ndays = rng.choice([200, 400])
     grid = [start + timedelta(days=k) for k in range(0, ndays, stepd)]
+    latency = 0
+    intraday = i % 5 == 4
+    if intraday:
+        # intraday grid straddling a roll instant, with a latency window that contains
+        # it: the decision is taken before the last-trading instant, executed after it
+        roll = pydt(ch.contracts[rng.randint(1, 4)].last_trading_date)
+        gap = rng.choice([60, 300])
+        latency = rng.choice([20, 30, 45])
+        off = rng.choice([5, 10, 15])       # last timestep before the roll is `off` s before it
+        k0 = rng.randint(2, 5)
+        grid = [roll - timedelta(seconds=off) + timedelta(seconds=gap * (k - k0)) for k in range(k0 + rng.randint(3, 6))]
+        stepd = 0
+        ndays = 0
+        ctx.cat("roll-inside-latency-window")
     spread = rng.choice([0, 2e-4, 2e-3])
     thr = rng.choice([0, 0.02, 0.05])
     evs = []
+    qtimes = list(grid)
+    if intraday:
+        qtimes = sorted(set(grid + [g + timedelta(seconds=latency - 5) for g in grid[:-1]] +
+                            [g + timedelta(seconds=latency + 5) for g in grid[:-1]]))
     for c in ch.contracts:
         p = rng.uniform(10, 3000)
-        for t in grid:
+        for t in qtimes:
             if pydt(c.expiry) - timedelta(days=500) < t < pydt(c.expiry):
-                p *= math.exp(rng.gauss(0, 0.006))
+                p *= math.exp(rng.gauss(0, 0.006 if not intraday else 0.0005))
                 evs.append(EventNBBO(t, c, p * (1 - spread / 2), p * (1 + spread / 2)))
     if etf is not None:
         p = 50.0
-        for t in grid:
+        for t in qtimes:
             p *= math.exp(rng.gauss(0, 0.01))
             evs.append(EventNBBO(t, etf, p, p * 1.0005))
     rng.shuffle(evs)
@@ -127,7 +145,7 @@ def case(ctx, i, tier):
     cs = [ch] + ([etf] if etf is not None else [])
     sink = ep.Sink()
     env = TradingEnv(action_space=BoxPortfolio(cs, -2, 2, margin=thr), transmitter=tr, state=ep.Rec(sink), broker_fees=fees,
-                     initial_cash=1e7)
+                     initial_cash=1e7, latency=latency)
     sink.env = env
     quotes = {}
     cursor = [0]
@@ -140,7 +158,7 @@ def case(ctx, i, tier):
         while not done:
             if k > len(grid) + 2:
                 raise RuntimeError("step cap")
-            w = rng.choice([0.0, rng.uniform(-1.5, 1.5), rng.uniform(-1.5, 1.5)])
+            w = rng.choice([0.0, rng.uniform(-1.5, 1.5), rng.uniform(-1.5, 1.5)]) if not intraday else rng.choice([-1, 1]) * rng.uniform(0.3, 1.5)
             a = np.array([w] + ([rng.uniform(-0.3, 0.5)] if etf is not None else []))
             h_before = env.broker.holdings_quantity
             o, r, done, info = env.step(a)
